@@ -9,6 +9,7 @@ import Hw.Topo.RenderOf
 import Hw.Topo.RestrictSurvive
 import Hw.Topo.RestrictMerge
 import Hw.Topo.RenderTop
+import Hw.Topo.RenderSets
 import Hw.Topo.WF
 import Driver.Topo
 import Driver.Util
@@ -138,7 +139,7 @@ def verdict (st : State) (c : Call) (bd : Dump) (braw : List (List String)) (ad 
           !wfB.isEmpty then [] else ["hypothesis-singletons-fails-on-a-WF-before-dump"]) ++
       -- A8: hypothesis of C08_merge_keeps_pus / C08_pus_exact_whole / C08_restrict_wf_partial: distinct gp_index over the TREE, no
       -- KEEP_STRUCTURE filter on the PU type and on the root's type
-      (if (decide (mergeSafe topo) && decide (machineOnce tree)) || !wfB.isEmpty then [] else ["hypothesis-mergeSafe-fails-on-a-WF-before-dump"])
+      (if (decide (mergeSafe topo) && decide (machineOnce tree) && setsPresT tree) || !wfB.isEmpty then [] else ["hypothesis-mergeSafe-fails-on-a-WF-before-dump"])
     let (topo', ret) := restrict topo c.set c.flags
     match ret with
     | .rootRemoved => ("MODEL-UNDEFINED root-would-be-removed", .unknown)
